@@ -313,6 +313,17 @@ let a_dnode = function
   | P (u, P (i, P (t, e))) -> { dn_id = a_pos u; dn_info = a_info i; dn_then = a_z t; dn_else = a_z e }
   | _ -> failwith "node expected"
 
+(* ---- JSON files: levels [v:l,...], roots, nodes [k:level:lo:hi,...] ---- *)
+let a_jref = function
+  | A "T" -> JT | A "F" -> JF | a -> JN (a_z a)
+let a_jnode = function
+  | P (k, P (l, P (lo, hi))) -> (a_pos k, ((a_nat l, a_jref lo), a_jref hi))
+  | _ -> failwith "json node expected"
+let a_hroots = function
+  | L (P _ :: _ as l) -> HDict (List.map (a_pair a_nat a_nat) l)
+  | L l -> HList (List.map a_nat l)
+  | _ -> failwith "handle roots expected"
+
 let show_adigest (d, hs) =
   let hs = List.map (fun (h, u) -> (int_of_nat h, int_of_z u)) hs in
   show_digest d ^ " handles=" ^ show_dict (fun (h, u) -> Printf.sprintf "%d:%d" h u) hs
@@ -362,6 +373,21 @@ let () =
                           else show_res r)
        | ["parse"; sp] ->
            print_endline (show_res (parse_show (a_spellings (parse_arg sp))))
+       | [m; "json_dump"; r; vo] when String.length m > 1 && m.[0] = 'a' ->
+           let m = nat_of_int (int_of_string (String.sub m 1 (String.length m - 1))) in
+           let (w', r) = astep_json_dump !aworld m (a_hroots (parse_arg r)) (a_list a_nat (parse_arg vo)) in
+           aworld := w';
+           print_endline (if !full then show_res r ^ "\t" ^ show_adigest (adigest (aworld_get w' m))
+                          else show_res r)
+       | [m; "json_load"; lv; r; ns; lo] when String.length m > 1 && m.[0] = 'a' ->
+           let m = nat_of_int (int_of_string (String.sub m 1 (String.length m - 1))) in
+           let jf = { jf_levels = a_list (a_pair a_nat a_nat) (parse_arg lv);
+                      jf_roots = a_roots (parse_arg r);
+                      jf_nodes = a_list a_jnode (parse_arg ns) } in
+           let (w', r) = astep_json_load !aworld m jf (a_bool (parse_arg lo)) in
+           aworld := w';
+           print_endline (if !full then show_res r ^ "\t" ^ show_adigest (adigest (aworld_get w' m))
+                          else show_res r)
        | [m; "add_expr"; sp] when String.length m > 1 && m.[0] = 'a' ->
            let m = nat_of_int (int_of_string (String.sub m 1 (String.length m - 1))) in
            let (w', r) = astep_expr !aworld m (a_spellings (parse_arg sp)) in
